@@ -15,6 +15,9 @@ CHECKS = {
     "C19": ("round-trip and pointwise oracle on arange-filled arrays over enumerated shapes/namings; value-at-every-point oracle for align/materialize",
             "Every array shape within the bound, event rank, naming of batch dims and dtype is converted to a funsor and back and indexed at every named point; every permutation of inputs is aligned for tensors, lazy terms, contractions, Gaussians and Deltas. Exploration, exhaustive over the stated bounded space in the thorough tier.",
             "trusted: numpy indexing; fv/refsem.py for lazy terms", "DESIGN.md §6 C19"),
+    "C04": ("reference-model monitor: simultaneous capture-free Sub semantics vs f(**subs) under eager/lazy/reflect (+reinterpret); culprit localisation by dispatch monitor",
+            "A catalogue of subjects is crossed with systematic value classes for each input (all singles, pair products, triple products/samples, foreign keys, chained calls); each result is compared with the reference substitution semantics on the whole integer input space, and lazily built substitutions must declare exactly the predicted inputs. Exploration.",
+            "trusted: fv/refsem.py, fv/ir.py; ill-typed maps are discarded; declines (NotImplementedError/assertions) are counted, not violations", "DESIGN.md §6 C04"),
     "C15": ("runtime oracle over op-table axioms on edge grids; scalar/0-d/array differential; NaN monitor on safe ops",
             "Every published table entry and every catalogue op is executed on an edge-value grid crossed with random values, shapes and operand orders; numpy/math/scipy arithmetic is the independent oracle. Exploration: held on the grid that was run, nothing beyond.",
             "trusted: numpy/scipy/math arithmetic; carriers as stated in the property (non-negative for max/min with mul, booleans for and/or)", "DESIGN.md §6 C15"),
